@@ -17,7 +17,11 @@ must make the assembly fail with at least one error diagnostic.
 
 The renderer only chooses among spellings whose value the specification has computed; it never
 evaluates an expression.  Strings whose value (or an intermediate) leaves (-2^30, 2^30) are outside
-TLC's integers: they are exported as "skip", counted, and not replayed.
+TLC's integers: they are exported as "skip", counted, and not replayed.  The same holds for a shift
+whose operand is already erroneous (what the assembler computes after it has reported an error is
+unspecified and a shift can make it astronomically large): counted separately, not replayed.
+Programs with a predicted error or with '.' are assembled one expression per program; all others
+200 lines per program (on a disagreement the lines are assembled one by one to localise it).
 """
 import random
 import struct
@@ -57,11 +61,11 @@ def tla_set(xs):
 
 
 def cfg(mode, invs, max_tok=0, max_depth=0, operands=(), infix=INFIX, prefix=PREFIX, brackets=BRACKETS, dot_v=8,
-        max_digits=0):
+        max_digits=0, dq_chars="few"):
     return ("SPECIFICATION Spec\nCONSTANTS\n"
             f' Mode = "{mode}"\n MaxTok = {max_tok}\n MaxDepth = {max_depth}\n'
             f" Operands = {tla_set(operands)}\n Infix = {tla_set(infix)}\n Prefix = {tla_set(prefix)}\n"
-            f" Brackets = {tla_set(brackets)}\n SymV = {SYM_V}\n DotV = {dot_v}\n MaxDigits = {max_digits}\n"
+            f" Brackets = {tla_set(brackets)}\n SymV = {SYM_V}\n DotV = {dot_v}\n MaxDigits = {max_digits}\n DqChars = \"{dq_chars}\"\n"
             + "".join(f"INVARIANT {i}\n" for i in invs) + "CHECK_DEADLOCK FALSE\n")
 
 
@@ -474,8 +478,8 @@ def main(run):
     setup = [
         dict(cfg_text=cfg("table", ["RespellPreservesValue", "ExportTable"]), workers=2, timeout=300,
              label="Expr literal table: values x 9 radix styles x leading zero x case"),
-        dict(cfg_text=cfg("lit", ["LitCaseSign", "ExportLit"], max_digits=nd), workers=4, timeout=600,
-             label=f"Expr literals written digit by digit (<= {nd} digits, hex <= {nd - 1}; 'c, \"cc, ^R <= 3 chars)"),
+        dict(cfg_text=cfg("lit", ["LitCaseSign", "ExportLit"], max_digits=nd, dq_chars="all" if thorough else "few"), workers=4, timeout=600,
+             label=f"Expr literals written digit by digit (<= {nd} digits, hex <= {nd - 1}; every 'c, \"cc over {'all' if thorough else 'a few'} characters, ^R <= 3 chars)"),
         dict(cfg_text=cfg("expr", ["ExportOperands"], max_tok=1, operands=ALL_OPERANDS), workers=1, timeout=300,
              label="Expr operand classes"),
     ]
